@@ -11,7 +11,7 @@ CHECKS = {
             "Typed, def-before-use builder programs (every statement kind, loops incl. zero-trip, if/else nesting, early exits, user functions, exact built-ins, 1-3 phases) are "
             "executed by an independent exact reference executor, by the interpreter and by the emitted class; events, persistent state and next phase after every step and the kind "
             "of raised error must be equal. Sampled; exact (dyadic) arithmetic so equality is exact and guards cannot flip.",
-            "Trusts vlib/refexec.py as the meaning of 'the builder calls one after another' (arrays follow Python reference semantics for plain copies); runs are compared up to the first step that leaves the exact domain.",
+            "Trusts vlib/refexec.py as the meaning of 'the builder calls one after another' (a plain array copy makes an independent array, as the recorded dependencies and the Fortran target treat it; the aliasing of the Python back ends is known finding array-alias); runs are compared up to the first step that leaves the exact domain.",
             "DESIGN.md 2/C01"),
     "C02": ("Hypothesis-generated single-phase builder programs x all/sampled linear extensions of the recorded graph; oracle = independent statement-level executor vs program-order reference",
             "For each generated program (dense name reuse; reads in every syntactic position; non-assignments interleaved) the recorded depends_on/condition graph is executed in every linear "
